@@ -68,7 +68,7 @@ static void embed_label_flow_s() {
   if (!valid) {
     V_ASSERT(err == Error::kInvalidOperandSize && reports == 1, "embed_label with a size that is not 1, 2, 4 or 8 is refused and reported");
     V_ASSERT(emitted == 0 && c->_relocations._size == 0 && c->_unresolved_fixup_count == 0 && sec(sid)->_buffer._size == pos, "refused embed_label leaves buffer, relocations and fixups unchanged");
-    V_WITNESS("embed-label-invalid-size");
+    V_WITNESS_MARK(0);
     return;
   }
   V_ASSERT(err == Error::kOk, "embed_label of a valid label and size succeeds");
@@ -93,22 +93,21 @@ static void embed_label_flow_s() {
   uint64_t field = load_le(sbuf[sid] + pos, size);
   bool fits = size == 8 || want < (1ull << (8 * (size & 7)));
   V_ASSERT((rerr == Error::kOk) == fits, "label address is accepted iff it fits the data size (never truncated)");
-  if (rerr == Error::kOk) { V_ASSERT(field == want, "embedded label address is base plus section offset plus label offset"); V_WITNESS("embed-label-address"); }
-  else { V_ASSERT(field == 0, "refused label address leaves the placeholder"); if (DS != 8 && DS != 0) V_WITNESS("embed-label-address-refused"); }
+  if (rerr == Error::kOk) { V_ASSERT(field == want, "embedded label address is base plus section offset plus label offset"); V_WITNESS_MARK(1); }
+  else { V_ASSERT(field == 0, "refused label address leaves the placeholder"); if (DS != 8 && DS != 0) V_WITNESS_MARK(2); }
 }
 template<uint32_t DS> static void embed_label_flow() {
   uint32_t sel = nondet_u8() & 3;
   if (sel == 0) embed_label_flow_s<DS, 0, false>(); else if (sel == 1) embed_label_flow_s<DS, 0, true>();
   else if (sel == 2) embed_label_flow_s<DS, 1, false>(); else embed_label_flow_s<DS, 1, true>();
 }
-HARNESS h_embed_label_0() { if (nondet_bool()) { arch_sel = 2; embed_label_flow<0>(); } else { arch_sel = 1; embed_label_flow<0>(); } }
-HARNESS h_embed_label_1() { arch_sel = 0; embed_label_flow<1>(); }
-HARNESS h_embed_label_2() { arch_sel = 0; embed_label_flow<2>(); }
-HARNESS h_embed_label_4() { arch_sel = 0; embed_label_flow<4>(); }
-HARNESS h_embed_label_8() { arch_sel = 0; embed_label_flow<8>(); }
-HARNESS h_embed_label_3() { arch_sel = 0; embed_label_flow<3>(); }
-HARNESS h_embed_label_16() { arch_sel = 0; embed_label_flow<16>(); }
-
+HARNESS h_embed_label_0() { chenv::wit_mask = 0;  if (nondet_bool()) { arch_sel = 2; embed_label_flow<0>(); } else { arch_sel = 1; embed_label_flow<0>(); } V_WITNESS_EMIT(1, "embed-label-address"); }
+HARNESS h_embed_label_1() { chenv::wit_mask = 0;  arch_sel = 0; embed_label_flow<1>(); V_WITNESS_EMIT(1, "embed-label-address"); V_WITNESS_EMIT(2, "embed-label-address-refused"); }
+HARNESS h_embed_label_2() { chenv::wit_mask = 0;  arch_sel = 0; embed_label_flow<2>(); V_WITNESS_EMIT(1, "embed-label-address"); V_WITNESS_EMIT(2, "embed-label-address-refused"); }
+HARNESS h_embed_label_4() { chenv::wit_mask = 0;  arch_sel = 0; embed_label_flow<4>(); V_WITNESS_EMIT(1, "embed-label-address"); V_WITNESS_EMIT(2, "embed-label-address-refused"); }
+HARNESS h_embed_label_8() { chenv::wit_mask = 0;  arch_sel = 0; embed_label_flow<8>(); V_WITNESS_EMIT(1, "embed-label-address"); }
+HARNESS h_embed_label_3() { chenv::wit_mask = 0;  arch_sel = 0; embed_label_flow<3>(); V_WITNESS_EMIT(0, "embed-label-invalid-size"); }
+HARNESS h_embed_label_16() { chenv::wit_mask = 0;  arch_sel = 0; embed_label_flow<16>(); V_WITNESS_EMIT(0, "embed-label-invalid-size"); }
 // embed_label with a label id outside the table: refused.
 HARNESS h_embed_label_invalid() {
   CodeHolder* c = make_holder(Arch::kX64, 2);
@@ -170,16 +169,16 @@ static void embed_delta_flow_s(int mode) {
     V_ASSERT(rerr == Error::kOk, "nothing to relocate for a directly emitted difference");
     // the weakest reading of "not silently truncated": the field, sign- or zero-extended, is the difference
     V_ASSERT(uint64_t(as_signed) == delta || field == delta, "label difference emitted directly is not truncated");
-    V_WITNESS("embed-delta-direct");
+    V_WITNESS_MARK(3);
   }
   else if (rerr == Error::kOk) {
     V_ASSERT(uint64_t(as_signed) == delta, "label difference field holds (section plus label) - (section plus base label)");
-    V_WITNESS("embed-delta-relocated");
+    V_WITNESS_MARK(4);
   }
   else {
     V_ASSERT(uint64_t(as_signed) != delta || field == 0, "refused label difference leaves the placeholder");
     V_ASSERT(size < 8 && int64_t(delta) != (size == 1 ? sx<8>(delta) : size == 2 ? sx<16>(delta) : sx<32>(delta)), "label difference is refused only when it does not fit the signed field");
-    if (DS == 1 || DS == 2 || DS == 4) V_WITNESS("embed-delta-refused");
+    if (DS == 1 || DS == 2 || DS == 4) V_WITNESS_MARK(5);
   }
 }
 template<uint32_t DS> static void embed_delta_flow(int mode) {
@@ -200,14 +199,13 @@ template<uint32_t DS> static void embed_delta_flow(int mode) {
     default: embed_delta_flow_s<DS, 1, true, true, 1, 0>(0); break;
   }
 }
-HARNESS h_embed_delta_0() { if (nondet_bool()) { arch_sel = 2; embed_delta_flow<0>(0); } else { arch_sel = 1; embed_delta_flow<0>(0); } }
-HARNESS h_embed_delta_1() { arch_sel = 0; embed_delta_flow<1>(0); }
-HARNESS h_embed_delta_2() { arch_sel = 0; embed_delta_flow<2>(0); }
-HARNESS h_embed_delta_4() { arch_sel = 0; embed_delta_flow<4>(0); }
-HARNESS h_embed_delta_8() { arch_sel = 0; embed_delta_flow<8>(0); }
-HARNESS h_embed_delta_1_kf_C03a() { arch_sel = 0; embed_delta_flow<1>(1); }
-HARNESS h_embed_delta_4_kf_C03a() { arch_sel = 0; embed_delta_flow<4>(1); }
-
+HARNESS h_embed_delta_0() { chenv::wit_mask = 0;  if (nondet_bool()) { arch_sel = 2; embed_delta_flow<0>(0); } else { arch_sel = 1; embed_delta_flow<0>(0); } V_WITNESS_EMIT(3, "embed-delta-direct"); V_WITNESS_EMIT(4, "embed-delta-relocated"); }
+HARNESS h_embed_delta_1() { chenv::wit_mask = 0;  arch_sel = 0; embed_delta_flow<1>(0); V_WITNESS_EMIT(3, "embed-delta-direct"); V_WITNESS_EMIT(4, "embed-delta-relocated"); V_WITNESS_EMIT(5, "embed-delta-refused"); }
+HARNESS h_embed_delta_2() { chenv::wit_mask = 0;  arch_sel = 0; embed_delta_flow<2>(0); V_WITNESS_EMIT(3, "embed-delta-direct"); V_WITNESS_EMIT(4, "embed-delta-relocated"); V_WITNESS_EMIT(5, "embed-delta-refused"); }
+HARNESS h_embed_delta_4() { chenv::wit_mask = 0;  arch_sel = 0; embed_delta_flow<4>(0); V_WITNESS_EMIT(3, "embed-delta-direct"); V_WITNESS_EMIT(4, "embed-delta-relocated"); V_WITNESS_EMIT(5, "embed-delta-refused"); }
+HARNESS h_embed_delta_8() { chenv::wit_mask = 0;  arch_sel = 0; embed_delta_flow<8>(0); V_WITNESS_EMIT(3, "embed-delta-direct"); V_WITNESS_EMIT(4, "embed-delta-relocated"); }
+HARNESS h_embed_delta_1_kf_C03a() { chenv::wit_mask = 0;  arch_sel = 0; embed_delta_flow<1>(1); V_WITNESS_EMIT(3, "embed-delta-direct"); }
+HARNESS h_embed_delta_4_kf_C03a() { chenv::wit_mask = 0;  arch_sel = 0; embed_delta_flow<4>(1); V_WITNESS_EMIT(3, "embed-delta-direct"); }
 // ---------------------------------------------------------------------------------------------------------------------
 // CodeHolder_evaluate_expression through an Expression relocation with an 8-byte field: every operator, operands constant /
 // label / nested expression (depth 2). The expression shape is fixed per instantiation (the evaluator is recursive).
@@ -255,9 +253,9 @@ static void expression_eval_i() {
   Error err = c->relocate_to_base(base, nullptr);
   uint64_t field = load_le(sbuf[0] + 8, 8);
   verif_observe(uint64_t(err)); verif_observe(field);
-  if (op == 6) { V_ASSERT(err == Error::kInvalidState && field == 0, "expression with an unknown operator is refused"); V_WITNESS("expression-invalid-operator"); return; }
+  if (op == 6) { V_ASSERT(err == Error::kInvalidState && field == 0, "expression with an unknown operator is refused"); V_WITNESS_MARK(6); return; }
   V_ASSERT(err == Error::kOk && field == want, "expression value is the reference evaluation over label positions");
-  V_WITNESS("expression-evaluated");
+  V_WITNESS_MARK(7);
 }
 template<uint32_t SHAPE>
 static void expression_eval() {
@@ -267,7 +265,7 @@ static void expression_eval() {
     case 3: expression_eval_i<SHAPE, 3>(); break; case 4: expression_eval_i<SHAPE, 4>(); break; default: expression_eval_i<SHAPE, 5>(); break;
   }
 }
-HARNESS h_expression_cc() { expression_eval<0>(); }
-HARNESS h_expression_lc() { expression_eval<1>(); }
-HARNESS h_expression_nested_l() { expression_eval<2>(); }
-HARNESS h_expression_nested_r() { expression_eval<3>(); }
+HARNESS h_expression_cc() { chenv::wit_mask = 0;  expression_eval<0>(); V_WITNESS_EMIT(6, "expression-invalid-operator"); V_WITNESS_EMIT(7, "expression-evaluated"); }
+HARNESS h_expression_lc() { chenv::wit_mask = 0;  expression_eval<1>(); V_WITNESS_EMIT(6, "expression-invalid-operator"); V_WITNESS_EMIT(7, "expression-evaluated"); }
+HARNESS h_expression_nested_l() { chenv::wit_mask = 0;  expression_eval<2>(); V_WITNESS_EMIT(6, "expression-invalid-operator"); V_WITNESS_EMIT(7, "expression-evaluated"); }
+HARNESS h_expression_nested_r() { chenv::wit_mask = 0;  expression_eval<3>(); V_WITNESS_EMIT(6, "expression-invalid-operator"); V_WITNESS_EMIT(7, "expression-evaluated"); }
